@@ -422,6 +422,9 @@ func Run(run *core.Run) {
 			if total > 0 {
 				k := 1 + (s.tornAt % total)
 				plan = &faults.Plan{KthCall: k}
+				if s.tornAt%3 == 0 {
+					plan.Err = faults.NewTemp(fmt.Sprint(k)) // an error that calls itself temporary is still a failure
+				}
 				acc := 0
 				for pos, c := range per {
 					acc += c
